@@ -135,8 +135,8 @@ func init() {
 			k.Cfg.Backend = "mem"
 			return k
 		},
-		Run: runC09R,
-		Config: func(cs Case) simrt.Config { return simrt.Config{NoJumps: true, MaxSteps: 100000} },
+		Run:               runC09R,
+		Config:            func(cs Case) simrt.Config { return simrt.Config{NoJumps: true, MaxSteps: 100000} },
 		BudgetIsViolation: true,
 		QuickRuns:         4000,
 		ThoroughRuns:      60000,
